@@ -42,7 +42,7 @@ func (c07) Components() map[string][]string {
 	}
 }
 func (c07) ProbeNames() []string {
-	return []string{"comp-none", "comp-gzip", "comp-xz", "comp-lz4", "comp-zstd", "no-fragments", "no-compress-flags", "cache-0", "cache-1", "cache-default", "start-nonzero", "big-dir", "sparse-run", "symlink", "bs-large"}
+	return []string{"comp-none", "comp-gzip", "comp-xz", "comp-lz4", "comp-zstd", "no-fragments", "no-compress-flags", "cache-0", "cache-1", "cache-default", "start-nonzero", "big-dir", "sparse-run", "symlink", "bs-large", "block-list-over-2-metadata-blocks"}
 }
 func (c07) Budget(tier string) (int, int, int) {
 	if tier == "thorough" {
@@ -67,6 +67,11 @@ func (c07) Gen(r *core.Rng, tier string, idx int) *core.Trace {
 		t.Cfg["bigdir"] = r.Range(50, 400)
 	}
 	t.Cfg["symlinks"] = int64(r.Intn(2))
+	// one file of more than 4096 blocks: its block list alone spans three 8 KiB metadata blocks
+	t.Cfg["manyblocks"] = 0
+	if t.Cfg["bs"] == 4096 && r.Chance(25) {
+		t.Cfg["manyblocks"] = r.Range(4100, 4500)
+	}
 	return t
 }
 
@@ -119,6 +124,16 @@ func c07Tree(t *core.Trace, bs int64) []imgEntry {
 			p = d + "/" + p
 		}
 		tree = append(tree, imgEntry{Path: p, Data: data})
+	}
+	if mb := t.I("manyblocks"); mb > 0 && bs <= 8192 {
+		if mb > 6000 {
+			mb = 6000
+		}
+		data := make([]byte, bs*mb+17)
+		for k := range data {
+			data[k] = byte('a' + (k/97+k)%23) // compressible, position dependent
+		}
+		tree = append(tree, imgEntry{Path: "d/many-blocks.bin", Data: data})
 	}
 	if bd := t.I("bigdir"); bd > 0 {
 		if bd > 600 {
@@ -280,6 +295,9 @@ func execSquashBuild(t *core.Trace, prop string) *core.Result {
 	}
 	if t.I("bigdir") > 0 {
 		res.Probe("big-dir")
+	}
+	if t.I("manyblocks") > 0 && t.I("bs") <= 8192 {
+		res.Probe("block-list-over-2-metadata-blocks")
 	}
 	// ---- read back twice with different cache sizes
 	for pass, cache := range []int64{t.I("cacheA"), t.I("cacheB")} {
